@@ -153,6 +153,18 @@ def step (st : St) (line : String) : IO St := do
     let init := prog (initSolution c fmg fk fi (exm != 0) fgs0 (L - 1))
     IO.println s!"SIG solve L={L} extrap={exm} kind={(kv rest "kind").getD ""} fmg={fmg} tol={absTol.isSome}{relTol.isSome} maxit={maxit}"
     let mut st := { st with solves := st.solves + 1, stats := { st.stats with cases := st.stats.cases + 1 } }
+    -- implementation oracle, second sentence of C01, independent of the model replay (it must also speak when the trace no longer
+    -- matches the model): the run stopped before the iteration limit, so the residual recomputed from the returned solution, the
+    -- right-hand sides copied after setup() and freshly built operators has to meet one of the tolerances
+    let indep0 := hexF ((kv rest "indep").getD "")
+    let n0s := (kv rest "n0").getD "-"
+    if it < maxit ∧ n0s != "-" ∧ (absTol.isSome ∨ relTol.isSome) then
+      let initial := hexF n0s
+      let okAbs : Bool := match absTol with | some t => decide (indep0 ≤ 1.5 * t) | none => false
+      let okRel : Bool := match relTol with | some t => decide (indep0 ≤ 1.5 * t * initial) | none => false
+      if !(okAbs || okRel) then
+        IO.println s!"ORACLE C01 solve() reported convergence after {it} of {maxit} iterations but the independently recomputed residual {indep0} does not meet the tolerance (initial {initial}) L={L} extrap={exm} fmg={fmg} opts={afterKey line "opts"}"
+        st := { st with oracleFails := st.oracleFails + 1 }
     if impl.take init.length != init then
       st ← cmpTrace st s!"solve: initial approximation (FMG={fmg})" (impl.take init.length) init
       return st
@@ -168,15 +180,6 @@ def step (st : St) (line : String) : IO St := do
         let rhoI := hexF ((kv rest "rho").getD "")
         stats ← check stats ((rho - rhoI).abs ≤ 1e-12 * rho.abs ∨ rho.toBits == rhoI.toBits) fun _ => s!"mean reduction factor: implementation {rhoI} model {rho}"
       st := { st with stats := stats, stoppedEarly := st.stoppedEarly + (if early then 1 else 0), hitMaxit := st.hitMaxit + (if early then 0 else 1), switched := st.switched + sw }
-      -- implementation oracle, second sentence of C01: a reported stop is true for the independently recomputed residual
-      let indep := hexF ((kv rest "indep").getD "")
-      if early ∧ norms.length > 0 then
-        let initial := norms.headD 1.0
-        let okAbs : Bool := match absTol with | some t => decide (indep ≤ 1.5 * t) | none => false
-        let okRel : Bool := match relTol with | some t => decide (indep ≤ 1.5 * t * initial) | none => false
-        if !(okAbs || okRel) then
-          IO.println s!"ORACLE C01 solve() stopped before the iteration limit but the independently recomputed residual {indep} does not meet the tolerance (initial {initial}) opts={afterKey line "opts"}"
-          st := { st with oracleFails := st.oracleFails + 1 }
       -- first sentence of C01 (inside its configuration set): convergence within the budget with mean factor < 1
       let inSet := exm != 2 ∧ nu1 ≥ 1 ∧ nu2 ≥ 1 ∧ maxit ≥ 150 ∧ (absTol.isSome ∨ relTol.isSome)
       if inSet ∧ !early then
